@@ -136,6 +136,20 @@ theorem C16_ping_answered_never_closes (r p c : Bool) (is : List In)
     (step (step s .pingTick).1 (.pong true)).1.outstanding = 0 ∧ (step s .pingTick).1.pingThread = true :=
   ping_answered_never_closes _ (C16_invariant r p c is) ht ho
 
+/-- … through any number of rounds, and whether or not the application's callback for an answer raises: the keep-alive's
+    bookkeeping is done before the answer is handed upward, so a failing callback cannot turn into a later 'Ping Timeout'. -/
+theorem C16_answered_rounds_never_close (r p c : Bool) (is : List In) (rs : List Bool)
+    (ht : (run { reconnectOpt := r, passive := p, control := c } is).1.pingThread = true)
+    (ho : (run { reconnectOpt := r, passive := p, control := c } is).1.outstanding = 0) :
+    let s := (run { reconnectOpt := r, passive := p, control := c } is).1
+    (∀ d, Out.closed d ∉ (run s (answeredRounds rs)).2) ∧ (run s (answeredRounds rs)).1.outstanding = 0 ∧
+    (run s (answeredRounds rs)).1.pingThread = true :=
+  answered_rounds_never_close rs _ (C16_invariant r p c is) ht ho
+
+example : (run {} ([.connectReq, .dConnected 0, .success] ++ answeredRounds [true, false, true])).2 =
+    [.created 0, .up, .authAttempt false, .authed, .pingSent, .written 0, .appRaised, .pingSent, .written 0, .pingSent, .written 0, .appRaised] := by
+  decide
+
 /-- … and closes the connection when a ping is still unanswered at the time the next one is due. -/
 theorem C16_ping_timeout_closes (r p c : Bool) (is : List In)
     (ht : (run { reconnectOpt := r, passive := p, control := c } is).1.pingThread = true)
